@@ -35,6 +35,7 @@ import (
 
 	kanzi "github.com/flanglet/kanzi-go/v2"
 	kio "github.com/flanglet/kanzi-go/v2/io"
+	"github.com/flanglet/kanzi-go/v2/transform"
 )
 
 type raceCfg struct {
@@ -176,6 +177,15 @@ func raceChild(args []string) int {
 	}
 	cfgs := raceConfigs()
 	r := rand.New(rand.NewSource(seed))
+	if m["odd"] == "1" {
+		// the inverse BWT itself, 8 chunks of an ODD size, 8 / 4 / 8 worker goroutines: the workers' write
+		// ranges must be disjoint (F46, `C13_bwt_tasks_disjoint`); under the race detector an overlap at a chunk
+		// boundary is a write-write report even though both workers store the same value
+		if msg := raceOddBWT(seed); msg != "" {
+			fmt.Println(msg)
+			return 0
+		}
+	}
 	var pipes []*racePipe
 	heavy := 0
 	for i := 0; i < K; i++ {
@@ -206,6 +216,12 @@ func raceChild(args []string) int {
 			p.cfg = raceCfg{"BWT", "NONE", "text"}
 			p.bs = 8 << 20
 			p.data = g5Data("text", 5<<20+r.Intn(1<<20), r.Int63n(1<<40))
+			if m["odd"] == "1" {
+				// 8 chunks of an ODD size: the last bi-gram of every chunk straddles the chunk boundary, so the
+				// workers' write ranges are disjoint only if the second byte of that pair is not stored (F46)
+				p.data = g5Data("text", 8*524289, r.Int63n(1<<40))
+				p.jobs = 8
+			}
 			if p.jobs < 2 {
 				p.jobs = 4
 			}
@@ -279,7 +295,7 @@ func raceExec(op string, res *Result) string {
 	}
 	defer os.RemoveAll(tmp)
 	cmd := exec.Command(exe, append([]string{"racechild"}, ws[1:]...)...)
-	cmd.Env = append(os.Environ(), "GORACE=log_path="+filepath.Join(tmp, "race")+" exitcode=66 halt_on_error=0 history_size=3")
+	cmd.Env = append(os.Environ(), "GORACE=log_path="+filepath.Join(tmp, "race")+" exitcode=66 halt_on_error=0 history_size="+map[bool]string{true: "7", false: "3"}[strings.Contains(op, "big=1")])
 	var so, se bytes.Buffer
 	cmd.Stdout, cmd.Stderr = &so, &se
 	done := make(chan error, 1)
@@ -380,11 +396,45 @@ func raceGen(r *rand.Rand, tier string, n int, emit func(op string, tags ...stri
 			[]int{20000, 60000, 200000}[r.Intn(3)], []int{1024, 4096, 16384}[r.Intn(3)], b2i(i%4 != 3), b2i(tier == "thorough" && i%6 == 0)), "family:pipelines")
 		off += K
 	}
+	// one BWT pipeline whose inverse runs 8 workers over chunks of an odd size (also in the quick tier)
+	emit(fmt.Sprintf("race k=1 j=8 off=0 seed=%d size=20000 bs=4096 hook=0 big=1 odd=1", r.Int63n(1<<31)), "family:bwt-odd-chunks")
 	if tier == "thorough" {
 		for i := 0; i < 3; i++ {
 			emit(fmt.Sprintf("race k=%d j=%d off=%d seed=%d size=20000 bs=4096 hook=1 big=1", 2, []int{2, 4, 7}[i], r.Intn(nc), r.Int63n(1<<31)), "family:bwt-big-block")
 		}
 	}
+}
+
+func raceOddBWT(seed int64) string {
+	n := 8 * 524289
+	src := g5Data("text", n, seed)
+	c1 := map[string]any{"jobs": uint(1)}
+	f, err := transform.NewBWTWithCtx(&c1)
+	if err != nil {
+		return "bwt-ctor-failure " + err.Error()
+	}
+	enc := make([]byte, n)
+	if _, _, err := f.Forward(src, enc); err != nil {
+		return "bwt-forward-failure " + err.Error()
+	}
+	for _, jobs := range []uint{8, 4, 8} {
+		c2 := map[string]any{"jobs": jobs}
+		g, err := transform.NewBWTWithCtx(&c2)
+		if err != nil {
+			return "bwt-ctor-failure " + err.Error()
+		}
+		for k := 0; k < 8; k++ {
+			g.SetPrimaryIndex(k, f.PrimaryIndex(k))
+		}
+		dec := make([]byte, n)
+		if _, _, err := g.Inverse(enc, dec); err != nil {
+			return "bwt-inverse-failure " + err.Error()
+		}
+		if !bytes.Equal(dec, src) {
+			return fmt.Sprintf("roundtrip-failure direct BWT inverse jobs=%d size=%d", jobs, n)
+		}
+	}
+	return ""
 }
 
 func b2i(b bool) int {
